@@ -216,7 +216,7 @@ package parse
 //@     decreases len(l.input) - l.pos, ite(l.width == 0, 0, 1)
 //@   loop 1
 //@     invariant lexerOK(l) && l.pos > old(l.pos) && l.start <= lastNonSpace && lastNonSpace <= l.pos
-//@     decreases len(l.input) - l.pos
+//@     decreases len(l.input) - l.pos, ite(ch == eof, 0, 1)
 
 //@ func lexCss
 //@   like stateFn
